@@ -249,4 +249,53 @@ theorem ignoreValue_T (ext : Spec.Program.Ext) (hext : Spec.Program.ExtOK ext) (
     · decide
     · rcases isWs_cases hw with rfl | rfl | rfl | rfl <;> decide
 
+/-! ### the same for the values of either build (`VOKg`: number literals admitted) -/
+
+mutual
+theorem valueLitsOK_of_shapeA : ∀ v : JV, shapeA v = true → valueLitsOK v = true
+  | .null, _ | .bool _, _ | .str _, _ => rfl
+  | .num (.pos _), _ | .num (.neg _), _ | .num (.float _), _ => rfl
+  | .num (.lit s), h => by simpa [shapeA, valueLitsOK] using h
+  | .arr xs, h => by
+    simp only [shapeA, valueLitsOK] at h ⊢
+    exact valuesLitsOK_of_shapeAs xs h
+  | .obj kvs, h => by
+    simp only [shapeA, valueLitsOK] at h ⊢
+    exact membersLitsOK_of_shapeAm kvs h
+theorem valuesLitsOK_of_shapeAs : ∀ xs : List JV, shapeAs xs = true → valuesLitsOK xs = true
+  | [], _ => rfl
+  | x :: xs, h => by
+    simp only [shapeAs, valuesLitsOK, Bool.and_eq_true] at h ⊢
+    exact ⟨valueLitsOK_of_shapeA x h.1, valuesLitsOK_of_shapeAs xs h.2⟩
+theorem membersLitsOK_of_shapeAm : ∀ kvs : List (Bytes × JV), shapeAm kvs = true → membersLitsOK kvs = true
+  | [], _ => rfl
+  | (k, x) :: kvs, h => by
+    simp only [shapeAm, membersLitsOK, Bool.and_eq_true] at h ⊢
+    exact ⟨valueLitsOK_of_shapeA x h.1.2, membersLitsOK_of_shapeAm kvs h.2⟩
+end
+
+theorem valueLitsOK_of_vokg {v : JV} (hv : VOKg v) : valueLitsOK v = true :=
+  hv.elim (valueLitsOK_of_shapeW v) (valueLitsOK_of_shapeA v)
+
+theorem T_derives_g (ext : Spec.Program.Ext) (hext : Spec.Program.ExtOK ext) (v : JV) (hl : valueLitsOK v = true) :
+    Spec.Grammar.Derives (T ext v) (cstOf (imageOfValue ext v)) := by
+  have hw := SJ.Proofs.SerImage.image_wf ext hext _ _ (SJ.Proofs.SerValue.ofValue_wf v hl) (SJ.Proofs.SerValue.image_ofValue ext v)
+  exact SJ.Proofs.SerLayout.derives_layout (fun _ => []) [] (fun _ => rfl) rfl _ 0 hw
+
+/-- `ignore_value` on a printed value of either build, followed by a separator -/
+theorem ignoreValue_T_g (ext : Spec.Program.Ext) (hext : Spec.Program.ExtOK ext) (env : Env) (hflt : env.flt = false) (v : JV)
+    (hv : VOKg v) (rest : Bytes) (pos : Nat) (hs : SepOK rest) :
+    ignoreValue env (T ext v ++ rest) pos = .ok () rest (pos + (T ext v).length) := by
+  refine ignoreValue_text env hflt _ _ (T_derives_g ext hext v (valueLitsOK_of_vokg hv)) rest pos ?_
+  intro _ d r' hr
+  rcases hs with rfl | ⟨c, tl, rfl, hc⟩
+  · cases hr
+  · cases hr
+    rcases hc with rfl | rfl | rfl | rfl | hw
+    · decide
+    · decide
+    · decide
+    · decide
+    · rcases isWs_cases hw with rfl | rfl | rfl | rfl <;> decide
+
 end SJ.Proofs.Typed
